@@ -82,16 +82,24 @@ def preInitOk : FilterOpts → Bool
 
 def dictOk (d : Nat) : Bool := decide (DICT_SIZE_MIN ≤ d) && decide (d ≤ DICT_SIZE_ENC_MAX)
 
+/-- An .xz Block chain the models support: accepted by `lzma_validate_chain`, LZMA2 last (valid lc/lp/pb, dictionary size
+    within the encoder's limits), delta / BCJ filters that pass their initialisation in front of it. -/
+def xzChain (p : Lzma.Props) (fs : List FilterOpts) : Bool :=
+  (validateChain (fs.map (·.id))).toOption.isSome &&
+    match fs.reverse with
+    | .lzma2 d :: preRev => p.valid && dictOk d && preRev.all preInitOk
+    | _ => false
+
+/-- The .lzma chain: LZMA1 alone. -/
+def aloneChain : List FilterOpts → Bool
+  | [.lzma1 id lc lp pb d] => decide (id = FILTER_LZMA1) && lclppbValid lc lp pb && dictOk d
+  | _ => false
+
 /-- See the header comment. -/
 def rawInitStd (p : Lzma.Props) (fs : List FilterOpts) : Ret :=
   match validateChain (fs.map (·.id)) with
   | .error e => e
-  | .ok _ =>
-    match fs.reverse with
-    | .lzma2 d :: preRev => if p.valid && dictOk d && preRev.all preInitOk then .ok else .optionsError
-    | [.lzma1 id lc lp pb d] =>
-      if decide (id = FILTER_LZMA1) && lclppbValid lc lp pb && dictOk d then .ok else .optionsError
-    | _ => .optionsError
+  | .ok _ => if xzChain p fs || aloneChain fs then .ok else .optionsError
 
 /-- The encoder environment of this liblzma build, for LZMA2 options `p` and a parser. -/
 def stdEncEnv (p : Lzma.Props) (parser : Parser) : EncEnv :=
